@@ -98,6 +98,12 @@ class Module:
             raise AnalysisError(f"anchor vanished: function {self.name}.{qual}")
         return self.funcs[qual]
 
+    def anchor(self, qual: str) -> ast.FunctionDef:
+        """The function *qual* with same-module helper calls expanded in place
+        (robust against 'extract helper' refactorings); see sa/inline.py."""
+        from .inline import canonical_function
+        return canonical_function(self, self.func(qual))
+
     def cls(self, name: str) -> ast.ClassDef:
         if name not in self.classes:
             raise AnalysisError(f"anchor vanished: class {self.name}.{name}")
